@@ -328,3 +328,119 @@ def r4d_sort_keys_are_projections(ctx):
                 r.ok(sample={"sort_at": crate.span_str(c["span"]), "comparator_calls": sorted({x.split("::")[-1] for x in calls})})
     r.floor("sorts with a comparator / key closure", n, 4)
     return r
+
+
+# ------------------------------------------------------------------------------------------ R4e: local memo keys
+def _named_roots(f, op, stop_at_named, limit=40):
+    """names of the user variables in the backward slice of an operand; with stop_at_named the walk ends at the first
+    named variable on each branch (the variables the expression is written in terms of)"""
+    out = set()
+    seen = set()
+    st = [op_local(op)] if op_local(op) is not None else []
+    while st and len(seen) < limit * 10:
+        l = st.pop()
+        if l is None or l in seen:
+            continue
+        seen.add(l)
+        nm = f.local_name(l)
+        if nm:
+            out.add(nm)
+            if stop_at_named:
+                continue
+        for d in f.whole_defs(l):
+            if d[0] == "assign":
+                rv = d[3]
+                if rv[0] == "use":
+                    st.append(op_local(rv[1]))
+                elif rv[0] == "ref":
+                    st.append(place_local(rv[2]))
+                elif rv[0] in ("cast", "un"):
+                    st.append(op_local(rv[-1]))
+                elif rv[0] == "bin":
+                    st += [op_local(rv[2]), op_local(rv[3])]
+                elif rv[0] == "agg":
+                    st += [op_local(o) for o in rv[2]]
+            elif d[0] == "call":
+                st += [op_local(a) for a in d[2]["args"]]
+    return out
+
+
+def _slice_local_calls(f, op, limit=400):
+    out = []
+    seen = set()
+    st = [op_local(op)] if op_local(op) is not None else []
+    while st and len(seen) < limit:
+        l = st.pop()
+        if l is None or l in seen:
+            continue
+        seen.add(l)
+        for d in f.whole_defs(l):
+            if d[0] == "assign":
+                rv = d[3]
+                if rv[0] == "use":
+                    st.append(op_local(rv[1]))
+                elif rv[0] == "ref":
+                    st.append(place_local(rv[2]))
+                elif rv[0] in ("cast", "un"):
+                    st.append(op_local(rv[-1]))
+                elif rv[0] == "agg":
+                    st += [op_local(o) for o in rv[2]]
+            elif d[0] == "call":
+                out.append(d[2])
+                st += [op_local(a) for a in d[2]["args"]]
+    return out
+
+
+def r4e_local_memo_keys(ctx):
+    r = Result("R4e", "a local memo (a HashMap local of a function, filled with something derived from a resolver call) is keyed "
+                      "by every variable the resolver call is written in terms of: `cache.insert(name, resolve(file, name))` "
+                      "answers later files with the first file's resolution, and which file comes first is the hash order of the "
+                      "usage map")
+    crate = ctx.bin
+    n = 0
+    for f in crate.real_fns():
+        for bb, c in f.calls():
+            if not re.search(r"HashMap::<K, V, S(, A)?>::insert$", c.get("res") or "") or len(c["args"]) < 3:
+                continue
+            m = _root_local_of(f, c["args"][0])
+            if m is None or not f.local_name(m) or m <= f.argc:
+                continue
+            resolver_calls = [c2 for c2 in _slice_local_calls(f, c["args"][2])
+                              if c2.get("res_local") and c2.get("res") in crate.fns and "FixtureDefinition" in crate.fns[c2["res"]].ret
+                              and not c2["res"].startswith("<") and crate.fns[c2["res"]].argc >= 3]
+            if not resolver_calls:
+                continue
+            n += 1
+            keynames = _named_roots(f, c["args"][1], stop_at_named=False)
+            missing = set()
+            for c2 in resolver_calls:
+                g = crate.fns[c2["res"]]
+                for i, a in enumerate(c2["args"]):
+                    if i == 0 and g.argc >= 1 and "FixtureDatabase" in g.local_ty(1):
+                        continue
+                    for nm in _named_roots(f, a, stop_at_named=True):
+                        if nm not in keynames and nm != "self":
+                            missing.add(nm)
+            key = "R4e|%s|%s" % (f.id, f.local_name(m))
+            if missing:
+                r.violate(key, "memo `%s` in %s is filled from %s but its key (%s) does not cover %s" % (
+                    f.local_name(m), f.id, resolver_calls[0]["res"].split("::")[-1], sorted(keynames), sorted(missing)))
+            else:
+                r.ok(sample={"memo": f.local_name(m), "key_vars": sorted(keynames)})
+    r.counts["local_memos"] = n  # no floor: a tree without such a memo has no obligation here
+    return r
+
+
+def _root_local_of(f, op, depth=0):
+    l = op_local(op)
+    if l is None or depth > 8:
+        return None
+    ds = f.whole_defs(l)
+    if len(ds) == 1 and ds[0][0] == "assign" and ds[0][3][0] == "ref":
+        p = ds[0][3][2]
+        if not [e for e in place_projs(p) if e != "*"]:
+            return _root_local_of(f, ["cp", place_local(p)], depth + 1) if place_local(p) != l else l
+        return None
+    if len(ds) == 1 and ds[0][0] == "assign" and ds[0][3][0] == "use" and op_local(ds[0][3][1]) is not None and not place_projs(op_place(ds[0][3][1])):
+        return _root_local_of(f, ds[0][3][1], depth + 1)
+    return l
